@@ -339,6 +339,9 @@ class Round:
         self.cur_pop = self.cur_slide = None
         self.last_err_head = None
         self.err_head = None  # head whose statement raised OUTSIDE slide (head-changed callback, _start_flow, _create_event_reference)
+        self.failed_start = None  # token of an instance that could not be created while its StartFlow event was popped (+ its reports)
+        self.failed_pushes = []
+        self.in_pie = False
         name = getattr(event, "name", None) or (event.get("type") if isinstance(event, dict) else None)
         args = getattr(event, "arguments", None) or (event if isinstance(event, dict) else {})
         T = [["ev", self.kind(name, args)]]
@@ -387,10 +390,27 @@ class Round:
     def pop_begin(self, state, event):
         self.cur_slide = None
         self.cur_pop = self.step(["ev", self.kind(event.name, event.arguments)], [])
+        self.in_pie = True
         self._keys = set(state.flow_states.keys())
         self._pop_event = event
 
+    def start_failed(self, flow_id):
+        """create_flow_instance raised while the StartFlow event was processed (bad default value expression, incomplete event): on the
+        token machine the instance is created and dies at once; its terminal events are the reports (ColangError, FlowFailed) pushed
+        before the pop ends"""
+        g = self.idx.get(flow_id)
+        if g is None or self.cur_pop is None:
+            return
+        self.failed_start = ["head", g, 1, False]
+        self.failed_pushes = []
+        self.cur_pop.append(list(self.failed_start))
+        self.cur_pop.append(["ev", "plain"])
+
     def pop_end(self, state):
+        self.in_pie = False
+        if self.failed_start is not None:
+            self.step(self.failed_start, self.failed_pushes)
+            self.failed_start, self.failed_pushes = None, []
         ev = self._pop_event
         if ev.name != "StartFlow" or ev.arguments.get("flow_id") not in self.idx:
             return
@@ -412,7 +432,13 @@ class Round:
     # -- pushes -----------------------------------------------------------------------------------------------------
     def push(self, event):
         k = self.kind(event.name, event.arguments)
-        if self.ctx:
+        if self.failed_start is None and self.in_pie and not self.ctx and event.name == "ColangError" and self._pop_event.name == "StartFlow":
+            # reported while the StartFlow event itself is processed (e.g. the event lacks flow_instance_uid: raised before
+            # create_flow_instance is entered)
+            self.start_failed(self._pop_event.arguments.get("flow_id"))
+        if self.failed_start is not None and event.name in ("ColangError", "FlowFailed"):
+            self.failed_pushes.append(["ev", k])
+        elif self.ctx:
             self.ctx[-1]["pushes"].append(["ev", k])
         elif event.name == "UnhandledEvent" and self.cur_pop is not None:
             self.cur_pop.append(["ev", "unhandled"])
